@@ -60,6 +60,7 @@ THEOREMS = [
     'Sbepp.Properties.C10.guard_sound_cursor_partial',
     'Sbepp.Properties.C10.no_silent_access_cursor_partial',
     'Sbepp.Properties.C10.guard_sound_cursor_full_false',
+    'Sbepp.Properties.C10.cursor_setter_sites_extracted',
     'Sbepp.Properties.C10.cursor_setter_as_getter',
     'Sbepp.Properties.C10.no_silent_write_cursor',
     'Sbepp.Properties.C10.guard_complete_partial',
